@@ -20,10 +20,12 @@ func init() {
 			"(R5) no write to a map that is definitely nil. " +
 			"(R6) lock pairing over the functions of package(s) updater: " + lockRuleText + ". " +
 			"(R7) at most one version is the current release: every store of a non-false value to ResourceVersion.CurrentRelease is preceded on every feasible path by a complete reset loop - a range over the resource's versions that clears the flag in every iteration and has no exit but the end of the range. " +
+			"(R8) error discipline over package updater: " + repoErrText + ". " +
 			"NOT decided: correctness over all version multisets, semantic-version ordering, the file-name regexes.",
 		Rules: []ruleFn{c19R1, c19R2, c19R3, c19R4, c19R5,
 			lockRuleFor("C19-R6", 20, []string{"updater"}, []string{}, map[string]string{"updater.(*RegistryState).StartOperation / s.operationLock": "StartOperation/EndOperation bracket an updater operation; EndOperation releases operationLock"}),
-			c19R7},
+			c19R7,
+			repoErrRuleFor("C19-R8", 30, func(c *Ctx, fn *ssa.Function) bool { return short(fn.Pkg.Pkg.Path()) == "updater" }, map[string]string{"updater.(*ResourceRegistry).fetchFile / utils/renameio.PendingFile.Cleanup": "deferred removal of the temp file is best effort; the temp dir is purged later"})},
 	})
 }
 
